@@ -43,7 +43,7 @@ var settingsFlowCache = map[*ssa.Function]*settingsFlowResult{}
 
 func isSessionSettingsAddr(v ssa.Value) bool {
 	fa, ok := v.(*ssa.FieldAddr)
-	return ok && an.FieldOf(fa) != nil && an.FieldOf(fa).Name() == "LogonSettings" && an.TypeIs(fa.X.Type(), "session", "Session")
+	return ok && an.FieldOf(fa) != nil && an.FieldName(an.FieldOf(fa)) == "LogonSettings" && an.TypeIs(fa.X.Type(), "session", "Session")
 }
 
 // objSim simulates stores and loads on one settings object along a sequence of blocks.
@@ -78,12 +78,12 @@ func (o *objSim) step(in ssa.Instruction) {
 	case *ssa.UnOp:
 		if x.Op == token.MUL {
 			if fa, ok := x.X.(*ssa.FieldAddr); ok && o.isObj(fa.X) {
-				o.loadVal[x] = o.env[an.FieldOf(fa).Name()]
+				o.loadVal[x] = o.env[an.FieldName(an.FieldOf(fa))]
 			}
 		}
 	case *ssa.Store:
 		if fa, ok := x.Addr.(*ssa.FieldAddr); ok && o.isObj(fa.X) {
-			o.env[an.FieldOf(fa).Name()] = o.sym(x.Val)
+			o.env[an.FieldName(an.FieldOf(fa))] = o.sym(x.Val)
 		}
 	}
 }
@@ -258,7 +258,7 @@ func (s *sess) sideOfPath(p *an.Path, sub map[ssa.Value]ssa.Value) string {
 				continue
 			}
 			f, _ := an.LoadedField(an.Unspill(pr[0]))
-			if f == nil || f.Name() != "side" {
+			if f == nil || an.FieldName(f) != "side" {
 				continue
 			}
 			return (bo.Op == token.EQL) == (k == acc), true
